@@ -9,6 +9,9 @@ Decided clauses:
        on-curve predicates depends on every coordinate it must read (identity in extended
        coordinates is X = 0 and Y = Z, so a test that never reads Y or Z cannot tell
        (0:1:1) from (0:-1:1)).
+  R7.6 (E11 bit-flow on the -O2 IR) the canonical-form predicates look at exactly the right bits:
+       ge25519_is_canonical's verdict cannot depend on bit 255 (the sign of x) and can depend on
+       every other bit; ristretto255_is_canonical and sc25519_is_canonical can depend on all 256.
   R7.4 cofactor clearing on every hash-to-group / from-uniform path before encoding; the raw
        Elligator map is reachable only from functions that clear the cofactor.
 NOT decided: exactness of field/scalar arithmetic, RFC 9380/9496 values, the accepted set of the
@@ -247,6 +250,37 @@ def run(ctx, chk):
                            sorted(f.params[i]["name"] for i in need_), sorted(f.params[i]["name"] for i in have)),
                        path=None if ok else p, key="R7.5 %s" % f.sname)
     chk.floor("R7.5", "inversion-guarding conditional moves in the ed25519 maps", n75, 1)
+
+    # ---- R7.6 (E11) which bits of the encoding the canonical-form predicates look at -------------------------
+    # ge25519_is_canonical tests y < p: bit 255 is the sign of x and must not take part (an encoding with the sign
+    # bit set and y >= p would otherwise pass), every other bit must be able to influence the verdict.
+    # ristretto255_is_canonical additionally rejects bit 255; sc25519_is_canonical compares all 256 bits with L.
+    from .. import bitflow, e9
+    rows6 = [("ge25519_is_canonical", {(31, 7)}), ("ristretto255_is_canonical", set()), ("sc25519_is_canonical", set())]
+    o2 = {}
+    n76 = 0
+    for name, ignored in rows6:
+        f = need(name)
+        if f.unit not in o2:
+            o2[f.unit] = bitflow.BitFlow(e9.O2Unit(ctx, f.unit))
+        bf = o2[f.unit]
+        if f.name not in bf.unit.fns:
+            raise AnalysisBroken("R7.6: %s vanished from the -O2 IR" % name)
+        leak, blind = [], []
+        for byte in range(32):
+            for bit in range(8):
+                r = bf.analyse(f.name, 0, byte, bit)
+                seen = bool(r["ret"] or r["branches"] or r["calls"] or r["stores"])
+                n76 += 1
+                if (byte, bit) in ignored and seen:
+                    leak.append((byte, bit))
+                if (byte, bit) not in ignored and not seen:
+                    blind.append((byte, bit))
+        chk.ob("R7.6", f, "the verdict cannot depend on %s of the encoding" % (sorted(ignored) or "no (ignored) bit"), not leak,
+               detail="(byte, bit) %s reach the result" % leak if leak else "", key="R7.6 %s sign-bit" % name)
+        chk.ob("R7.6", f, "every other bit of the 32-byte encoding can influence the verdict", not blind,
+               detail="(byte, bit) %s never reach the result" % blind[:12] if blind else "", key="R7.6 %s coverage" % name)
+    chk.floor("R7.6", "(predicate, byte, bit) flows analysed", n76, 768)
 
     # public generators write their output only through cofactor-clearing maps or validated addition
     okw = {f.key for f in clearing} | {need("crypto_core_ed25519_add").key}
